@@ -39,6 +39,8 @@ template<class M> struct V2 {
 template<int R, class M> struct F2 { template<class... A> constexpr uint64_t operator()(A&&... a) const { uint64_t h = hcomb(0xabcd, uint64_t(R)); ((h = hcomb(h, V2<M>::of(a))), ...); return h; } };
 template<int R, class M> struct FC2M { template<class C, class... A> constexpr uint64_t operator()(C&&, A&&... a) const { uint64_t h = hcomb(0xabcd, uint64_t(R)); ((h = hcomb(h, V2<M>::of(a))), ...); return h; } };
 template<int T> struct TF { constexpr uint64_t operator()(std::string_view sv) const { return term_hash(T, sv); } };
+// one functor TYPE for several terms, told apart by state only (e.g. typed_term(char_term('+'), as_op{add}) / typed_term(char_term('-'), as_op{sub}))
+struct TS { int t; constexpr uint64_t operator()(std::string_view sv) const { return term_hash(t, sv); } };
 template<int R> struct G { template<class... A> constexpr uint64_t operator()(A&&...) const { return uint64_t(R); } };
 template<int R> struct FC { template<class C, class... A> constexpr uint64_t operator()(C&&, A&&... a) const { uint64_t h = hcomb(0xabcd, uint64_t(R)); ((h = hcomb(h, val(a))), ...); return h; } };
 // is T::run() a constant expression?  1 value / 0 empty / -1 not a constant expression
@@ -96,6 +98,9 @@ def render_grammar(gi, case, with_cases=True, lite=False, ctxmix=False, customle
         rnd = random.Random(gi * 7919 + len(g["rules"]))
         tof = []
         decl = {}
+        import zlib as _z
+        stateful = _z.crc32(json.dumps(g["rules"], sort_keys=True).encode()) % 2 == 1      # typed / custom terms share one functor type in half of the programs
+        tfun = (lambda t: "hh::TS{%d}" % t) if stateful else (lambda t: "hh::TF<%d>{}" % t)
         for t, (ti, sp) in enumerate(zip(g["terms"], spelling)):
             assoc = "associativity::" + ["no_assoc", "ltor", "rtol"][ti["assoc"]]
             plain = ti["prec"] == 0 and ti["assoc"] == 0
@@ -103,11 +108,11 @@ def render_grammar(gi, case, with_cases=True, lite=False, ctxmix=False, customle
             if customlex:
                 # C18: every terminal is a custom_term (display name, functor, precedence, associativity); a hand-written longest-match lexer supplies (index in terms(...), length)
                 if plain and rnd.random() < 0.5:
-                    out.append("constexpr custom_term T%d(%s, hh::TF<%d>{});" % (t, cxx_str(sp["name"]), t))
+                    out.append("constexpr custom_term T%d(%s, %s);" % (t, cxx_str(sp["name"]), tfun(t)))
                 elif ti["assoc"] == 0 and rnd.random() < 0.5:
-                    out.append("constexpr custom_term T%d(%s, hh::TF<%d>{}, %d);" % (t, cxx_str(sp["name"]), t, ti["prec"]))
+                    out.append("constexpr custom_term T%d(%s, %s, %d);" % (t, cxx_str(sp["name"]), tfun(t), ti["prec"]))
                 else:
-                    out.append("constexpr custom_term T%d(%s, hh::TF<%d>{}, %d, %s);" % (t, cxx_str(sp["name"]), t, ti["prec"], assoc))
+                    out.append("constexpr custom_term T%d(%s, %s, %d, %s);" % (t, cxx_str(sp["name"]), tfun(t), ti["prec"], assoc))
                 decl[t] = "T%d" % t
                 in_rules[t] = ["T%d" % t]
                 continue
@@ -121,7 +126,7 @@ def render_grammar(gi, case, with_cases=True, lite=False, ctxmix=False, customle
             if k == "T":
                 # typed term wrapping a regex term that has a custom display name
                 out.append("constexpr char pat%d[] = %s;" % (t, cxx_str(pat_text)))
-                out.append("constexpr typed_term T%d(regex_term<pat%d>(%s, %d, %s), hh::TF<%d>{});" % (t, t, cxx_str(sp["name"]), ti["prec"], assoc, t))
+                out.append("constexpr typed_term T%d(regex_term<pat%d>(%s, %d, %s), %s);" % (t, t, cxx_str(sp["name"]), ti["prec"], assoc, tfun(t)))
                 decl[t] = "T%d" % t
                 in_rules[t] = ["T%d" % t]
             elif k in ("r", "R"):
@@ -134,7 +139,7 @@ def render_grammar(gi, case, with_cases=True, lite=False, ctxmix=False, customle
                 in_rules[t] = ["T%d" % t]
                 tof.append("if (!lex.empty() && lex[0] == '%s') return %d;" % (sp["text"][0], t))
             elif k == "t":
-                out.append("constexpr typed_term T%d(char_term('%s', %d, %s), hh::TF<%d>{});" % (t, sp["text"], ti["prec"], assoc, t))
+                out.append("constexpr typed_term T%d(char_term('%s', %d, %s), %s);" % (t, sp["text"], ti["prec"], assoc, tfun(t)))
                 decl[t] = "T%d" % t
                 in_rules[t] = ["T%d" % t]
             else:
@@ -348,7 +353,9 @@ def render_c13(gi, case, rnd):
             terms.append("t%d" % t)
         else:
             terms.append("'%s'" % ch)
-    conflict_free = case["class"] != "precedence"
+    # extra precedences are only harmless where no cell consults them: a grammar with error rules may well have shift/reduce conflicts
+    # (false alarm 10: decorated "recovery" grammars were resolved differently from the undecorated grammar the reference had seen)
+    conflict_free = not case.get("has_sr", True)
     rules = []
     forms = []
     for r in g["rules"]:
